@@ -36,7 +36,7 @@ macro "value_bridge" : tactic => `(tactic| (
   | done
   | (simp [rs_value, ActionValue.toModel, ActionValueDim.toModel, Value.dim, Value.zero, Value.asBool, Value.as1, Value.as2,
       Value.as3, Value.convert, Value.isActuated, Vec2.ZERO, Vec2.X, Vec2.Y, Vec2.ONE, Vec3.ZERO, Vec3.X, Vec3.Y, Vec3.Z,
-      Vec3.ONE, Vec3.xy, Vec2.extend, Vec3.toModel, RInto.into, vec2_ne_zero, vec3_ne_zero, vec2_eq_zero, vec3_eq_zero,
+      Vec3.ONE, Vec3.xy, Vec2.extend, Vec2.new, Vec3.new, Vec2.length_squared, Vec3.toModel, RInto.into, vec2_ne_zero, vec3_ne_zero, vec2_eq_zero, vec3_eq_zero,
       Vec3.length_squared, V3.normSq, leQ] <;> (try (first | rfl | congr)))))
 
 theorem value_dim (v : ActionValue) : v.dim.toModel = v.toModel.dim := by
